@@ -416,7 +416,11 @@ def odeSys : List Eqn :=
 def odeKey : Node → String := fun v => ["y", "", "", "a", "Derivative(_x, _t)", "x", "t"].getD v ""
 
 example : getEquationsFor odeKey odeSys [0] true false = .ok [3, 4, 0] := by decide +kernel
-example : buildGraph odeKey odeSys = .ok ⟨[4, 3, 0, 5, 6], [(5, 4), (3, 4), (4, 0), (5, 0)]⟩ := by decide +kernel
+/-- the references of an equation are walked in `str` order (`a` before `x`), whatever order the set gave them in -/
+example : buildGraph odeKey odeSys = .ok ⟨[4, 3, 0, 5, 6], [(3, 4), (5, 4), (4, 0), (5, 0)]⟩ := by decide +kernel
+example : buildGraph odeKey [ { lhs := 4, refs := [3, 5], refsNum := [3, 5], ode := some (5, 6) },
+    { lhs := 3, refs := [], refsNum := [] }, { lhs := 0, refs := [5, 4], refsNum := [5, 4] } ] =
+      buildGraph odeKey odeSys := by decide +kernel
 
 /-- the hypotheses of `eqsfor_total` are met by the diamond … -/
 example : Valid diamondKey diamond ∧ (∀ v, ¬ TC (DepOn diamond false) v v) :=
